@@ -11,6 +11,7 @@ import (
 	"math/rand"
 	"os"
 	"sort"
+	"sync/atomic"
 	"time"
 	"unsafe"
 
@@ -238,6 +239,18 @@ func coopEngine() {
 	// sleeps requested per worker
 	sleeps := map[int]int64{}
 	clk.OnSleep = func(d time.Duration) { sleeps[coop.Me()] += int64(d) }
+	{ // observability calibration: the throttling checker must reach the scheduler through the atomic shim
+		c0 := atomic.LoadUint64(&vatomic.Count)
+		load("c10-calib", ruleDesc{Thr: 10, Interval: 1000, MaxQ: 100})
+		if e, b := sentinel.Entry("c10-calib", sentinel.WithSlotChain(chain)); b == nil {
+			e.Exit()
+		}
+		flow.ClearRulesOfResource("c10-calib")
+		if atomic.LoadUint64(&vatomic.Count) == c0 {
+			run.Inconclusive("observability: a request through a throttling rule executed no shimmed atomic access (was the checker moved out of core/flow/tc_throttling.go?) - no interleaving can be explored and rejections cannot be justified")
+			return
+		}
+	}
 	n := run.N(30000, 1500000)
 	do := func(i int, c *coopCase, ch coop.Chooser) {
 		caseNo++
